@@ -26,6 +26,9 @@ Four monitor groups, all on the real classes through their public API only:
              directly from the final parameters (all keywords, or default-valued keywords omitted / no arguments) and one
              constructed from different values and brought there through every setter; direct vs setter path has its
              own key.  Histories contain no-op assignments (the value the attribute already has) and A -> B -> A.
+             "Same argument again right after a state change" is a first-class probe: density / polarisation / pointing
+             (spectra: density, bins, wavelengths) are asked at a few arguments right before every setter and the FIRST calls
+             after it repeat exactly those arguments (most recent first), judged against direct construction (monitor same_arg).
   shape    : at every judged cross-section the transverse profile is f(axis) exp(-x^2/2sx^2 - y^2/2sy^2) with the widths measured
              at about one sigma, out to 6 sigma along axes and diagonals (no Rayleigh-range convention needed); Gaussian-beam cases
              place the section 0..50 Rayleigh ranges on either side of waists of 2e-5..1e-2 m.  A cross-section the tensor grid
@@ -82,9 +85,9 @@ ASAN_MODULES = ["cherab.core.model.laser.math_functions", "cherab.core.model.las
 ASAN = dict(cases=2000, workers=8, timecap=240)
 QUICK = dict(cases=800, workers=2, timecap=45)
 THOROUGH = dict(cases=40000, workers=16, timecap=600)
-REQUIRED = {"quad_xsec": 60, "quad_volume": 4, "quad_uniform": 8, "tiling_lists": 40, "bins": 2000, "sum": 40,
+REQUIRED = {"quad_xsec": 60, "quad_volume": 4, "quad_uniform": 8, "tiling_lists": 30, "bins": 2000, "sum": 40,
             "sum_unity": 20, "density": 300, "hist_steps": 300, "hist_energy_density": 1000, "hist_geometry": 100,
-            "hist_psd": 1000, "reported": 1500, "width": 60, "formula": 2000, "construct_paths": 300, "shape": 3000, "placement": 600}
+            "hist_psd": 1000, "reported": 1500, "width": 60, "formula": 2000, "construct_paths": 300, "shape": 3000, "placement": 400, "same_arg": 3000}
 
 C_LIGHT = 299792458.0      # m/s, exact by SI definition (own constant, not imported from cherab)
 PROFILES = ("UniformEnergyDensity", "ConstantBivariateGaussian", "TrivariateGaussian", "GaussianBeamAxisymmetric")
@@ -628,8 +631,11 @@ def _mk_profile(cls, P, via="direct", ctx=None):
             else:
                 Q[k] = 1.7 * v
         o = _mk_profile(cls, Q)
+        probe = _formula_points(cls, P)[0]          # the first point the monitors will ask for afterwards
         for k in PROFILE_PARAMS[cls]:
+            o.get_energy_density(*probe)            # same argument right before / right after a state change
             setattr(o, k, P[k])
+        o.get_polarization(*probe)
         o.set_polarization(Vector3D(*P["polarization"]))
         return o
     kw = {k: v for k, v in P.items() if k != "polarization"}
@@ -646,8 +652,10 @@ def _mk_spectrum(cls, S, via="direct"):
         if "mean" in S:
             Q.update(mean=1.01 * S["mean"], stddev=1.7 * S["stddev"])
         o = _mk_spectrum(cls, Q)
+        x0 = S["min_wavelength"] + 0.02 * (S["max_wavelength"] - S["min_wavelength"])
         for k in ("min_wavelength", "max_wavelength", "bins", "mean", "stddev"):
             if k in S:
+                o(x0)
                 setattr(o, k, S[k])
         return o
     if cls == "ConstantSpectrum":
@@ -1310,6 +1318,40 @@ def _reported(ctx, obj, M, cls, seen):
                      want=float(want))
 
 
+def _same_arg_probes(cls, M):
+    """arguments for the same-argument-again probe, taken from the parameters BEFORE the setter"""
+    if cls in PROFILES:
+        sx = M.get("stddev_x", M.get("stddev_waist", M["laser_radius"]))
+        sy = M.get("stddev_y", sx)
+        L = M["laser_length"]
+        zc = M.get("mean_z", M.get("waist_z", 0.31 * L))
+        return [(0.0, 0.0, 0.5 * L), (-0.9 * sx, 0.35 * sy, zc), (0.45 * sx, -0.8 * sy, 0.23 * L)]
+    w = M["max_wavelength"] - M["min_wavelength"]
+    xs = [M["min_wavelength"] + f * w for f in (0.12, 0.5, 0.83)]
+    if "mean" in M:
+        xs.append(M["mean"] + 0.6 * M["stddev"])
+    return dict(x=xs, bin=[0, (M["bins"] - 1) // 2, M["bins"] - 1])
+
+
+def _same_arg_eval(obj, cls, probes, reverse=False, M=None):
+    """evaluate the observables at the probe arguments (reverse: last argument first, i.e. the most recently asked one)"""
+    if cls in PROFILES:
+        pts = list(reversed(probes)) if reverse else probes
+        out = {"energy_density": [obj.get_energy_density(*q) for q in pts]}
+        v = [obj.get_polarization(*q) for q in pts[:2]] + [obj.get_pointing(*q) for q in pts[:2]]
+        out["polarization"] = [c for a in v[:2] for c in (a.x, a.y, a.z)]
+        out["pointing"] = [c for a in v[2:] for c in (a.x, a.y, a.z)]
+        return out
+    xs = list(reversed(probes["x"])) if reverse else probes["x"]
+    out = {"density": [obj(x) for x in xs]}
+    psd, wl = obj.power_spectral_density, obj.wavelengths
+    n = len(psd)
+    idx = [i for i in probes["bin"] if i < (n if M is None else min(n, M["bins"]))]
+    out["power_spectral_density"] = [float(psd[i]) for i in idx] + [float(n)]
+    out["wavelengths"] = [float(wl[i]) for i in idx] + [float(len(wl))]
+    return out
+
+
 def _run_history(case, ctx):
     """live object driven by the setter history; after construction and after every setter it is compared with
     D = an object constructed directly from the modelled parameters (all keywords, or default-valued ones omitted) and
@@ -1338,6 +1380,10 @@ def _run_history(case, ctx):
             # apply to the live object through the public API, and to the model
             was_noop = bool(name != "reassign_same" and value == M[name])
             kinds.add("noop" if was_noop else "change")
+            # "same argument again right after a state change": the observables are asked at a few arguments right
+            # before the setter, and the FIRST calls after it repeat exactly those arguments, last one first
+            probes = _same_arg_probes(cls, M)
+            _same_arg_eval(live, cls, probes)
             if name == "reassign_same":
                 if laser is not None:
                     laser.laser_profile = laser.laser_profile
@@ -1348,6 +1394,7 @@ def _run_history(case, ctx):
             else:
                 setattr(live, name, value)
                 setter = name
+            same_arg_live = _same_arg_eval(live, cls, probes, reverse=True)
             if name != "reassign_same":
                 M[name] = value
         if laser is not None:
@@ -1369,6 +1416,19 @@ def _run_history(case, ctx):
             objs = [_mk_spectrum(cls, M), _mk_spectrum(cls, M, "setters")]
             lo = _observe_spectrum(live, M)
             do, so = (_observe_spectrum(o, M) for o in objs)
+        if setter is not None:
+            ref = _same_arg_eval(objs[0], cls, probes, reverse=True, M=M)
+            for obs in ref:
+                f = np.asarray(ref[obs], dtype=float)
+                bad, g, w, t = _cmp(ctx, same_arg_live[obs], f, 1e-12 * np.abs(f).ravel() + 1e-300, "same_arg")
+                if (bad is None or bad.any()) and ("same_arg", obs) not in seen:
+                    seen.add(("same_arg", obs))
+                    i = 0 if bad is None else int(np.argmax(bad))
+                    ctx.viol("history:%s.%s:stale:%s:same-argument-first-call" % (_defcls(live, setter), setter, obs),
+                             "asked for the same argument right before and as the first call right after this setter, the live "
+                             "object's %s differs from that of an object constructed directly with the final parameters" % obs,
+                             setter=setter, observable=obs, index=i, live=None if bad is None else float(g[i]),
+                             direct=None if bad is None else float(w[i]), n_bad=None if bad is None else int(bad.sum()))
         ctx.mon("hist_steps")
         ctx.mon("construct_paths")
         ctx.nontrivial()
